@@ -72,7 +72,7 @@ Fixpoint guarded_b (s : heap) (h : list op) : bool :=
 Lemma guard_b_sound : forall s o, guard_b s o = true -> guard NH by_id old s o.
 Proof.
   intros s o H. apply andb_true_iff in H. destruct H as [A B]. split.
-  - apply existsb_exists in A. destruct A as (rl & _ & Hr). exists (rank_of rl). apply ranked_b_sound. exact Hr.
+  - apply existsb_exists in A. destruct A as (rl & _ & Hr). exists (rank_of rl). apply (proj1 (ranked_b_sound rl _ Hr)).
   - destruct o; auto. apply andb_true_iff in B. destruct B as [ND F]. split; [apply nodup_b_sound; exact ND|].
     intros name c Hin. rewrite forallb_forall in F. specialize (F (name, c) Hin). simpl in F.
     apply andb_true_iff in F. destruct F as [P L]. split; [apply plain_b_sound; exact P | apply Nat.ltb_lt; exact L].
